@@ -1185,9 +1185,11 @@ func Abolish(vm *VM, pi Term, k Cont, env *Env) *Promise {
 				if !ok {
 					return k(env) // There's no such procedure: nothing to abolish, and nothing static is modified.
 				}
-				if u, ok := p.(*userDefined); !ok || !u.dynamic {
+				u, ok := p.(*userDefined)
+				if !ok || !u.dynamic {
 					return Error(permissionError(operationModify, permissionTypeStaticProcedure, key.Term(), env))
 				}
+				u.clauses = nil // An open retract/1 of the procedure still holds u: it must find nothing left to remove.
 				delete(vm.procedures, key)
 				return k(env)
 			default:
